@@ -1662,7 +1662,7 @@ func verifyWriters(p *Program) *FuncReport {
 	if len(p.SerialAudit) > 0 {
 		sites := seqSites(p)
 		r := &OblResult{Name: "serial-audit", Func: packageKey, Kind: "audit", Tags: p.SerialAudit, Status: "proved", Backend: "frame-scan", Sites: len(sites) + 1,
-			Src: "every ordering comparison between two sequence-number values goes through the RFC 1982 helpers (a raw <,<=,>,>= differs from serial order for operands more than half the space apart)"}
+			Src: "every ordering comparison between two sequence-number values goes through the RFC 1982 helpers (a raw <,<=,>,>= or the builtins max/min differ from serial order for operands more than half the space apart)"}
 		if len(sites) > 0 {
 			// a raw comparison of unconstrained sequence numbers never equals the serial comparison: shown by the solver
 			resetTerms()
